@@ -154,7 +154,10 @@ claimed = {
         "Tie: layout constants and accessor masks regenerated from source; the Lean parser and CBOR decoder are run against the real functions on "
         "structured, prefix, mutated and random inputs, and the implementation's own Marshal(Unmarshal) is checked against the consumed prefix.",
    ref="DESIGN.md §8 C10", technique="Lean 4 proof (layout iff, round trips, prefix-freeness by induction) + differential execution of the compiled model",
-   note="The attestation-object part (fmt/authData/attStmt members) is modelled (Cbor/AttObj.lean) and compared by the attObj stream; its theorems are listed under C02/C09."),
+   note="The attestation-object sentence is modelled in Cbor/AttObj.lean; Theorems/C10AttObj.lean proves that further members (text keys naming none of the three, integer keys) "
+        "at any position change nothing, that the three members decode to their values in each of the six orders, that a repeated member after its first occurrence changes nothing, "
+        "and that the remaining bytes are what follows the one decoded item (with every proper prefix rejected); the attObj.members / prefixes / mutated streams compare "
+        "UnmarshalAttestationObject with the model on objects of every format."),
  "C12": dict(
    text="Lean theorems: the regenerated Hash/X509SignatureAlgorithm/verify-constructor tables equal the IANA tables for every integer "
         "(default branch included), and Verify asks exactly the standard (scheme, hash) primitive under the key's own material for every "
